@@ -819,3 +819,19 @@ pub fn read_args(dbg: &debugger::Debugger) -> anyhow::Result<Vec<VarItem>> {
     }
     Ok(out)
 }
+
+/// Verification hook: `write_bytes` as used by writeMemory / setVariable / setExpression.
+#[cfg(feature = "verif")]
+pub fn verif_write_bytes(
+    dbg: &debugger::Debugger,
+    addr: usize,
+    bytes: &[u8],
+) -> anyhow::Result<()> {
+    write_bytes(dbg, addr, bytes)
+}
+
+/// Verification hook: `parse_set_value` as used by setVariable / setExpression.
+#[cfg(feature = "verif")]
+pub fn verif_parse_set_value(kind: ScalarKind, input: &str) -> anyhow::Result<Vec<u8>> {
+    parse_set_value(kind, input)
+}
